@@ -17,8 +17,12 @@ class ToGFA1:
     a.append(",".join(segment_names))
     overlaps = []
     for oline in self.captured_edges:
-      gfapy.Field._validate_gfa_field(oline.line.overlap, "alignment_gfa1")
-      overlaps.append(str(oline.line.overlap))
+      overlap = oline.line.overlap
+      if oline.orient == "-":
+        # the edge is traversed in the opposite direction
+        overlap = overlap.complement()
+      gfapy.Field._validate_gfa_field(overlap, "alignment_gfa1")
+      overlaps.append(str(overlap))
     if not overlaps:
       # path consisting in a single segment
       overlaps.append("*")
